@@ -33,6 +33,11 @@ def run(ctx):
     base = []
     for fam, nq, nt in (("core", 60, 600), ("limits", 120, 1200), ("hours", 60, 600), ("coredeps", 40, 400), ("subslot", 40, 400), ("alap", 30, 300), ("yearend", 60, 600), ("bookings", 120, 800)):
         base += gens.family(ctx, fam, ctx.n(nq, nt))
+    # resolutions that divide neither a day nor a week (the slot grid begins at the project start, not at a clock phase)
+    for ap in gens.family(ctx, "core", ctx.n(40, 300)):
+        ap["G"] = ctx.rng.choice([3000, 1500, 660, 6000, 2100, 780])
+        ap["_family"] = "oddres"
+        base.append(ap)
     for ap in base:                      # UTC projects: the property is about UTC; a resource may still NAME its zone, as UTC
         for _, n in projects.walk(ap["resources"]):
             if n.pop("tz", None) is not None and ctx.rng.random() < 0.7:
@@ -124,7 +129,7 @@ def run(ctx):
         violations.append({"no_input": True, "replay": common.write_replay(ctx, {"property": "C14", "kind": "proof obligation no longer checks; no failing input found", "failing_obligations": failing})})
     cov = {"obligations": nob, "discharged": ndis, "checker_cmd": "tools/coqbuild.sh (coqc 8.16.1 full .vo build) after translate/py2v.py /repo -> coq/Gen", "trusted_base": common.TRUSTED, "files": files,
            "traces_validated_against_impl": stats["compared"], "input_distribution": dict(stats),
-           "rule": "UTC projects (resources may name their zone as Etc/UTC; each pair runs in a process whose own zone is unset, Europe/Berlin or America/New_York; limits on resources/groups/tasks, own hours and shifts, leaves, vacations, holidays, pinned starts, ALAP deadlines; starts incl. year ends, 53-week years, Sundays, times of day) scheduled as given and with every date moved by k weeks (incl. leaves of one and two calendar months, whose end lands on another day of the month after some shifts), k in {1,2,3,4,5,9,13,26,51,52,53,60,104,157,209,261,300} (across leap days, year ends and 53-week ISO years); for the year-end projects also the dates printed by 'plan report --csv' of both",
+           "rule": "UTC projects (timing resolutions incl. 50, 25, 11, 100, 35 and 13 minutes, which divide neither a day nor a week; resources may name their zone as Etc/UTC; each pair runs in a process whose own zone is unset, Europe/Berlin or America/New_York; limits on resources/groups/tasks, own hours and shifts, leaves, vacations, holidays, pinned starts, ALAP deadlines; starts incl. year ends, 53-week years, Sundays, times of day) scheduled as given and with every date moved by k weeks (incl. leaves of one and two calendar months, whose end lands on another day of the month after some shifts), k in {1,2,3,4,5,9,13,26,51,52,53,60,104,157,209,261,300} (across leap days, year ends and 53-week ISO years); for the year-end projects also the dates printed by 'plan report --csv' of both",
            "samples": [{"weeks": kk[0], "project": projects.render(base[0])[:800]}]}
     common.finish(ctx, "proof", cov, violations,
                   ["project end given in days/weeks (month/year durations move the end by a non-week amount by definition)",
